@@ -64,6 +64,9 @@ type Analysis struct {
 	Res          map[string]*resInfo // key tag/n
 	ExecStarts   map[string][]int    // id -> seqs of exec-start
 	ByTag        map[string]*Instance
+	// MutCollision: ids for which a mutate message was read while a
+	// subscription or another mutation with the same id was registered.
+	MutCollision map[string]bool
 }
 
 func (a *Analysis) anomaly(rule string, seq int, id string, inst *Instance, detail string) {
@@ -95,7 +98,7 @@ func Analyze(events []Event, meta []MsgMeta, max int) *Analysis {
 	a := &Analysis{Events: events, Meta: meta, Max: max,
 		ReturnSeq: map[int]int{}, NextEnterSeq: map[int]int{},
 		ServeReturnSeq: -1, ReadErrorSeq: -1, CtxCancelSeq: -1,
-		ResolveByTag: map[string][]int{}, Res: map[string]*resInfo{}, ExecStarts: map[string][]int{}, ByTag: map[string]*Instance{}}
+		ResolveByTag: map[string][]int{}, Res: map[string]*resInfo{}, ExecStarts: map[string][]int{}, ByTag: map[string]*Instance{}, MutCollision: map[string]bool{}}
 	live := map[string]*Instance{}
 	openMut := map[string]int{}
 	mutIDs := map[string]bool{}
@@ -146,6 +149,9 @@ func Analyze(events []Event, meta []MsgMeta, max int) *Analysis {
 			winDup, winCnt, winErr, winUnsubs, winSubs = nil, len(live), 0, 0, 0
 			switch e.Type {
 			case "mutate":
+				if openMut[e.ID] > 0 || live[e.ID] != nil {
+					a.MutCollision[e.ID] = true
+				}
 				mutIDs[e.ID] = true
 				usedIDs[e.ID] = true
 				openMut[e.ID]++
